@@ -58,12 +58,6 @@ Lemma fastest_rt_some : forall ss, ss <> [] -> exists f, fastest_rt ss = Some f.
 Proof. intros [|s l] H; [congruence|]. eexists; reflexivity. Qed.
 
 (* ------------------------------------------------------------------ admission *)
-(* the documented test: the deadline is before now + the runtime of the fastest strategy *)
-Definition hopeless (wd : world) (now : Z) (t : task) : bool :=
-  match zassoc (t_model t) wd with
-  | Some ss => match fastest_rt ss with Some f => t_deadline t <? now + f | None => false end
-  | None => false
-  end.
 Definition admit_one (wd : world) (t : task) (st : cw_state) : cw_state :=
   match zassoc (t_model t) wd with Some ss => st_add_task ss t st | None => st end.
 
